@@ -111,6 +111,7 @@ static size_t wire_fault(uint8_t *p, size_t len, const fault_t *f) {
 	else if (!strcmp(k, "extend")) { size_t add = 1 + (size_t)f->a % 8; memset(p + len, (int)f->b, add); len += add; }
 	else if (!strcmp(k, "extlong")) { size_t add = 200 + (size_t)f->a % 300; if (len + add > 1400) add = 1400 > len ? 1400 - len : 0; memset(p + len, (int)(f->b | 1), add); len += add; }
 	else if (!strcmp(k, "prefix0")) { size_t add = 1 + (size_t)f->a % 4; memmove(p + add, p, len); memset(p, 0, add); len += add; }
+	else if (!strcmp(k, "strip0")) { size_t z = 0; while (z < len && p[z] == 0) z++; if (z) { memmove(p, p + z, len - z); len -= z; } }	/* the shortest encoding of the same integer */
 	else if (!strcmp(k, "zero")) { memset(p, 0, len); }
 	else if (!strcmp(k, "tag")) { if (len) p[0] = (uint8_t)f->a; }
 	else if (!strcmp(k, "empty")) { len = 0; }
